@@ -30,9 +30,17 @@ OffsetsOK(o) == \A i \in DOMAIN o.toks :
                   /\ (o.offsets => o.toks[i][5] = <<o.toks[i][1]>>)
 StreamFacts(o) == [positions_increase |-> PositionsOK(o), offsets_delimit_source |-> OffsetsOK(o)]
 
+\* HTML output with the formatter's own tags taken out: no raw angle bracket is left, and every ampersand
+\* starts a character entity (so that the text, including a matched token, cannot be read as markup)
+Entities == << <<38, 97, 109, 112, 59>>, <<38, 108, 116, 59>>, <<38, 103, 116, 59>>, <<38, 113, 117, 111, 116, 59>>,
+               <<38, 35, 51, 57, 59>>, <<38, 35, 120, 50, 55, 59>> >>
+StartsAt(s, k, e) == k + Len(e) - 1 <= Len(s) /\ SubSeq(s, k, k + Len(e) - 1) = e
+EscapedOK(s) == \A k \in DOMAIN s : /\ s[k] \notin {60, 62}
+                                    /\ (s[k] = 38 => \E i \in DOMAIN Entities : StartsAt(s, k, Entities[i]))
 IsSubstring(f, t) == \E k \in 0 .. Len(t) - Len(f) : SubSeq(t, k + 1, k + Len(f)) = f
 HighlightFacts(o) ==
   [fragments_are_substrings |-> \A i \in DOMAIN o.frags : IsSubstring(o.frags[i], o.text),
+   html_text_is_escaped |-> \A i \in DOMAIN o.escaped : EscapedOK(o.escaped[i]),
    marks_inside_fragments |-> \A i \in DOMAIN o.marks :
         /\ o.marks[i][1] \in DOMAIN o.frags
         /\ 0 <= o.marks[i][2] /\ o.marks[i][2] < o.marks[i][3] /\ o.marks[i][3] <= Len(o.frags[o.marks[i][1]]),
@@ -52,7 +60,7 @@ ObsOK(idx, m, q, o) ==
     [] o.kind = "has" -> o.doc \in ToSet(o.ids)
     [] o.kind = "stream" -> PositionsOK(o) /\ OffsetsOK(o)
     [] o.kind = "highlight" -> LET F == HighlightFacts(o) IN
-         F.fragments_are_substrings /\ F.marks_inside_fragments /\ F.marked_spans_are_query_terms
+         F.fragments_are_substrings /\ F.html_text_is_escaped /\ F.marks_inside_fragments /\ F.marked_spans_are_query_terms
          /\ F.marks_are_unions_of_matched_tokens
     [] o.kind = "error" -> FALSE
 
